@@ -120,7 +120,18 @@ def _scenario(spec, rnd, d, logdir, res):
         'stdout': [[64, 5]] * 50, 'stderr': [[7, 5]] * 50}})], numprocesses=2,
         stdout_stream={'stream': Collector('stdout', sink)}, stderr_stream={'stream': Collector('stderr', sink)},
         copy_env=True, graceful_timeout=0.5, loop=loop)
-    arb = Arbiter(watchers + [sib], 'ipc://%s/ctl' % d, 'ipc://%s/pub' % d, check_delay=0.2, context=ctx, loop=loop)
+    # a worker that exits by itself while a helper child still holds its pipes open; its successor
+    # (respawned by the periodic check, usually on the same descriptor numbers) is a writer
+    dy_script = {ch: [[rnd.choice(SIZES[:6]), rnd.choice([0, 1, 5])] for _ in range(40)] for ch in ('stdout', 'stderr')}
+    dys = []
+    for j in range(3):
+        dys.append(Watcher('dy%d' % j, live.PY, args=['-S', live.WORKER, json.dumps({
+            'log': logdir, 'once_marker': os.path.join(logdir, 'dy%d.marker' % j), 'fork': 1,
+            'self_exit': [0.3 + 0.15 * j, 0],
+            'then': {'out': {'stdout': dy_script['stdout'], 'stderr': dy_script['stderr']}}})], numprocesses=1,
+            stdout_stream={'stream': Collector('stdout', sink)}, stderr_stream={'stream': Collector('stderr', sink)},
+            copy_env=True, graceful_timeout=0.5, loop=loop))
+    arb = Arbiter(watchers + [sib] + dys, 'ipc://%s/ctl' % d, 'ipc://%s/pub' % d, check_delay=0.2, context=ctx, loop=loop)
     info = {'fds': {}}
 
     def nfds():
@@ -149,7 +160,10 @@ def _scenario(spec, rnd, d, logdir, res):
                             pass
                     yield gen.sleep(0.35)
             except Exception as e:          # a ConflictError with the periodic check is legitimate
-                res.obs['sibling_action_refused:%s' % type(e).__name__] += 1
+                if type(e).__name__ == 'ConflictError':
+                    res.obs['sibling_action_refused:ConflictError'] += 1
+                else:
+                    info.setdefault('sib_errors', []).append('%s %s: %s' % (act, type(e).__name__, str(e)[:80]))
                 yield gen.sleep(0.1)
             info['fds'][g] = nfds()
             yield gen.sleep(0.02)
@@ -157,7 +171,7 @@ def _scenario(spec, rnd, d, logdir, res):
         t0 = time.time()
         while time.time() - t0 < 60:
             donef = [f for f in os.listdir(logdir) if '.written.' in f]
-            if len(donef) >= 2 * len(watchers):
+            if len(donef) >= 2 * len(watchers) + 2 * len(dys):
                 break
             yield gen.sleep(0.1)
         yield gen.sleep(0.5)
@@ -168,6 +182,7 @@ def _scenario(spec, rnd, d, logdir, res):
         info['idle_calls'] = {k: calls[k] - before.get(k, 0) for k in calls}
         info['alive'] = {n: live.alive(p) for n, p in writers.items()}
         info['same_pid'] = {w.name: sorted(w.processes) for w in watchers}
+        info['dy_pids'] = sorted(p for x in dys for p in x.processes)
         yield arb.stop()
     try:
         loop.run_sync(go, timeout=240)
@@ -210,6 +225,29 @@ def _scenario(spec, rnd, d, logdir, res):
         foreign = [k for k in sink if k[0] == pid and k[1] not in ('stdout', 'stderr')]
         if foreign:
             res.violation('C17/unknown-channel-label', str(foreign[:2]))
+    # restarting / reloading a sibling must not fail because of descriptor bookkeeping
+    for msg in info.get('sib_errors', [])[:1]:
+        mech = 'stale-handler-for-reused-descriptor' if 'added twice' in msg else 'other'
+        res.violation('C17/sibling-restart-failed[%s]' % mech,
+                      'restart/reload of the sibling watcher raised %s (%d such failures in %d generations): a descriptor '
+                      'of a dead worker is still registered with the loop when its number is reused'
+                      % (msg, len(info['sib_errors']), spec['gens']))
+    # the respawned successor of the worker that died by itself
+    for pid in info.get('dy_pids', []):
+        if not os.path.exists(os.path.join(logdir, '%d.written.stdout' % pid)):
+            res.obs['dy_successor_not_finished(not judged)'] += 1
+            continue
+        for ch in ('stdout', 'stderr'):
+            want = b''.join(record(pid, ch, seq, size) for seq, (size, _) in enumerate(dy_script[ch]))
+            got = b''.join(sink.get((pid, ch, ch), []))
+            res.obs['streams_compared'] += 1
+            res.obs['respawned_worker_streams_compared'] += 1
+            if got != want:
+                res.violation('C17/respawned-worker-output-%s' % ('lost' if len(got) < len(want) else 'differs'),
+                              'the worker respawned after its predecessor exited by itself (a helper child still held '
+                              'the old pipes) wrote %d bytes on %s, the stream got %d' % (len(want), ch, len(got)))
+            else:
+                res.nontrivial(repr(('dy', dy_script[ch][:20], ch)))
     # every chunk is tagged with the pid of the worker that wrote it
     for (pid, nm, chan), chunks in sink.items():
         blob = b''.join(chunks)
